@@ -14,7 +14,7 @@ LEVEL = "exploration"
 def specs_for(ctx):
     rng = random.Random(ctx.seed + 3)
     specs = []
-    for i in range(ctx.pick(120, 1200)):
+    for i in range(ctx.pick(120, 4000)):
         nframes = rng.choice([2, 3, 4, 5])
         when = rng.choice([0, nframes - 1, rng.randrange(nframes)])
         method = rng.choice(["default", "default", "lsq", "lsq_linear"])
